@@ -75,7 +75,7 @@ Record kern := {
   k_eig_shift : Mat -> Val -> Val;            (* AddedDiag over ConstantDiag (matrix A): child's evals + c *)
   k_svd_of_eig : Val -> Val;                  (* LinearOperator._svd *)
   k_svd_shift : Mat -> Val -> Val;
-  k_diagz_lanczos : Mat -> nat -> nat -> res Val;   (* Diagonalization.apply (matrix, size, id of the run: random start vector); the kernel fails on 1x1 *)
+  k_diagz_lanczos : Mat -> nat -> nat -> res Val;   (* Diagonalization.apply (matrix, size, id of the run: random start vector) *)
   k_cholop : Val -> Val;                      (* CholLinearOperator(L) *)
   k_root_eig : Val -> Val;                    (* RootLinearOperator(evecs * evals.clamp_min(0).sqrt()) *)
   k_root_svd : Val -> Val;
@@ -136,14 +136,21 @@ Record profile := {
   pf_precond : bool;            (* AddedDiag: pivoted-Cholesky preconditioner with ad-hoc caches *)
   pf_sum : bool;                (* isinstance(self, SumLinearOperator): add_low_rank rebuilds (and may densify) the sum *)
   pf_iqld_to : bool;            (* CatLinearOperator.inv_quad_logdet: tuple(r.to(self.device) for r in super()...) *)
-  pf_deleg : option bool        (* with pf_eig = EigKron [c]: NOT a Kronecker product but a class that hands _cholesky / _svd /
+  pf_deleg : option bool;       (* with pf_eig = EigKron [c]: NOT a Kronecker product but a class that hands _cholesky / _svd /
                                    _symeig / inv_quad_logdet / the Lanczos internals to its one base operator c and keeps
                                    the base-class cached methods: Some true = BlockDiagLinearOperator (also
                                    zero_mean_mvn_samples), Some false = BatchRepeatLinearOperator *)
+  pf_iqld_norhs_raises : bool;  (* delegating classes, two history-independent reshaping errors of their inv_quad_logdet when
+                                   the base operator takes the CG branch (probed on the library under test by the harness;
+                                   both are repaired by the proposed C05 fixes): a missing right-hand side raises RuntimeError *)
+  pf_iqld_nologdet_raises : bool; (* ... and logdet=False raises TypeError (BlockDiag: `logdet_res.view( *logdet_res.shape)`) *)
+  pf_lanczos_1x1_raises : bool  (* Diagonalization.apply on a 1 x 1 operator raises IndexError (history independent; probed;
+                                   repaired by the proposed Lanczos fixes) *)
 }.
 Definition pf_plain : profile :=
   {| pf_td_name := None; pf_td_kids := []; pf_chol_ignore := false; pf_eig := EigBase; pf_cm_root := None;
-     pf_precond := false; pf_sum := false; pf_iqld_to := false; pf_deleg := None |}.
+     pf_precond := false; pf_sum := false; pf_iqld_to := false; pf_deleg := None;
+     pf_iqld_norhs_raises := false; pf_iqld_nologdet_raises := false; pf_lanczos_1x1_raises := false |}.
 
 (* the factors of a class with KroneckerProductLinearOperator's overrides of the cached methods *)
 Definition kron_over (p : profile) : option (list nat) :=
@@ -376,7 +383,10 @@ Definition diagonalization_base (st : settings) (fuel : nat) (i : nat) (o : obj)
       let m := match m0 with
                | None => if o_n o <=? st_max_chol st then "symeig" else "lanczos"
                | Some s => s end in
-      if String.eqb m "lanczos" then r <- fresh_run ;; lift (k_diagz_lanczos K (o_mat o) (o_n o) r)
+      if String.eqb m "lanczos" then
+        r <- fresh_run ;;
+        if (o_n o =? 1) && pf_lanczos_1x1_raises (o_pf o) then raise IndexError
+        else lift (k_diagz_lanczos K (o_mat o) (o_n o) r)
       else if String.eqb m "symeig" then symeig fuel i true
       else raise RuntimeError).
 
@@ -569,8 +579,8 @@ Definition inv_quad_logdet_body (kid_call : nat -> option nat -> bool -> H Val)
         with_obj c (fun oc =>
           r <- kid_call c rhs logdet ;;
           let kid_cg := negb (negb (st_fc_logprob st) || (o_n oc <=? st_max_chol st)) in
-          if kid_cg && (match rhs with None => true | Some _ => false end) then raise RuntimeError
-          else if kid_cg && negb logdet && (match pf_deleg (o_pf o) with Some true => true | _ => false end) then raise TypeError
+          if kid_cg && (match rhs with None => true | Some _ => false end) && pf_iqld_norhs_raises (o_pf o) then raise RuntimeError
+          else if kid_cg && negb logdet && pf_iqld_nologdet_raises (o_pf o) then raise TypeError
           else ret (k_iqld_deleg K (o_mat o) r))
     | None =>
     match kron_over (o_pf o) with
